@@ -15,7 +15,7 @@ ROOT_INITS = [
     "github.com/lightninglabs/neutrino", "github.com/lightninglabs/neutrino/banman", "github.com/btcsuite/btcwallet/walletdb",
     "io", "bytes", "encoding/binary", "github.com/btcsuite/btcd/wire/v2", "github.com/btcsuite/btcd/chainhash/v2",
     "github.com/lightninglabs/neutrino/headerfs", "github.com/lightninglabs/neutrino/chainsync",
-    "github.com/lightninglabs/neutrino/query", "github.com/lightninglabs/neutrino/blockntfns",
+    "github.com/lightninglabs/neutrino/query", "github.com/lightninglabs/neutrino/blockntfns", "github.com/lightninglabs/neutrino/cache", "github.com/lightninglabs/neutrino/cache/lru",
 ]
 
 COMMON_ASSUMPTIONS = [
@@ -139,7 +139,7 @@ CHECKS = {
             "the honest chain has <= 5 headers above genesis; a corrupted file stays self-consistent above the corrupted position",
         ],
         "groups": [
-            {"name": "import", "pkg": "chainimport", "harness_dir": "chainimport", "common": ["pow"], "harness": "VerifH_C14_import",
+            {"name": "import", "pkg": "chainimport", "harness_dir": "chainimport", "common": ["pow", "stores"], "harness": "VerifH_C14_import",
              "inits": ["github.com/lightninglabs/neutrino/chainimport", "io", "github.com/btcsuite/btcd/wire/v2", "github.com/btcsuite/btcd/chainhash/v2",
                        "github.com/lightninglabs/neutrino/chainsync", "github.com/lightninglabs/neutrino/headerfs", "bytes"],
              "anchored_files": ["chainimport/headers_import.go", "chainimport/iter.go", "chainimport/block_headers_validator.go",
@@ -148,6 +148,21 @@ CHECKS = {
              "thorough": {"params": {"maxtip": 3, "maxstart": 3, "maxcount": 4, "maxbatch": 3, "corruptions": 3, "faults": 1, "maxheight": 6}},
              "must_reach": {"VerifH_C14_import": ["import-succeeded", "import-failed"]},
              "outside": "file start > 3, more than 4 headers, batch size > 3, more than one injected write failure, the real file/HTTP sources"},
+        ],
+    },
+    "C06": {
+        "assumptions": COMMON_ASSUMPTIONS + [
+            "blockchain.CheckBlockSanity and blockchain.ValidateWitnessCommitment are free symbolic predicates per response block (btcd is the oracle for merkle/witness validity): what is decided is that neutrino calls both on the right block and honours the results",
+            "the work manager is a stub that feeds every response to the real handler until it reports Finished (the dispatcher's retry contract, decided for the real dispatcher in C12)",
+            "block header store is the slice model; BlockCache is the released lru cache; ban store is the real banman store on the walletdb model; concrete clock",
+        ],
+        "groups": [
+            {"name": "getblock", "pkg": ".", "harness_dir": "root", "common": ["walletdb", "stores", "pow"], "harness": "VerifH_C06_getBlock",
+             "inits": ROOT_INITS, "anchored_files": ["query.go", "cacheable_block.go", "banman/store.go"],
+             "params": {"maxresponses": 2}, "thorough": {"params": {"maxresponses": 3}},
+             "no_native_replay": "block validity is a symbolic predicate; a native replay would need real blocks with chosen merkle/witness validity",
+             "must_reach": {"VerifH_C06_getBlock": ["valid-response-present", "no-valid-response", "expect-ban"]},
+             "outside": "more than 3 responses; merkle-root and witness-commitment arithmetic (btcd); the real dispatcher's scheduling (C12)"},
         ],
     },
 }
